@@ -63,3 +63,75 @@ where
 {
     transactions::transactional(base, action)
 }
+
+// ---------------------------------------------------------------------------------------------
+// Monitor: when the environment variable CW_MT_VERIF_TRACE names a directory, every top-level
+// entry point of `App` (execute_multi, sudo, wasm_sudo) and every query through `App` appends one
+// line {"ev", "kind", "ok", "pre", "post"} (digests of the complete root storage before and after)
+// to a per-thread file in that directory. The entry points call themselves once more between
+// `monitor_enter` and `monitor_leave`; nothing else changes.
+
+use std::cell::Cell;
+use std::io::Write;
+
+thread_local! {
+    static MONITOR_DEPTH: Cell<u32> = const { Cell::new(0) };
+}
+
+/// Returns true when the caller should record this call (monitoring is on and this is not the
+/// recording re-entry itself).
+pub fn monitor_enter() -> bool {
+    if std::env::var_os("CW_MT_VERIF_TRACE").is_none() {
+        return false;
+    }
+    MONITOR_DEPTH.with(|d| {
+        if d.get() > 0 {
+            false
+        } else {
+            d.set(1);
+            true
+        }
+    })
+}
+
+/// A digest of the complete content of a store (FNV-1a over all keys and values in order).
+pub fn monitor_digest(storage: &dyn Storage) -> u64 {
+    let mut h: u64 = 0xcbf29ce484222325;
+    let mut eat = |bytes: &[u8]| {
+        for b in bytes {
+            h ^= *b as u64;
+            h = h.wrapping_mul(0x100000001b3);
+        }
+        h ^= 0xff;
+        h = h.wrapping_mul(0x100000001b3);
+    };
+    for (k, v) in storage.range(None, None, Order::Ascending) {
+        eat(&k);
+        eat(&v);
+    }
+    h
+}
+
+/// Appends one event to the per-thread trace file and ends the recording re-entry.
+pub fn monitor_leave(ev: &str, kind: &str, ok: bool, pre: u64, post: u64) {
+    MONITOR_DEPTH.with(|d| d.set(0));
+    if let Some(dir) = std::env::var_os("CW_MT_VERIF_TRACE") {
+        let name = format!(
+            "{}-{:?}.ndjson",
+            std::process::id(),
+            std::thread::current().id()
+        )
+        .replace(['(', ')'], "");
+        let path = std::path::Path::new(&dir).join(name);
+        if let Ok(mut f) = std::fs::OpenOptions::new()
+            .create(true)
+            .append(true)
+            .open(path)
+        {
+            let _ = writeln!(
+                f,
+                "{{\"ev\":\"{ev}\",\"kind\":\"{kind}\",\"ok\":{ok},\"pre\":\"{pre:016x}\",\"post\":\"{post:016x}\"}}"
+            );
+        }
+    }
+}
